@@ -49,6 +49,8 @@ func (idx *IndexWriter) AddRow(values map[string]string) (uint32, error) {
 		idx.nextRowID++
 	}()
 
+	verifPoint("mem.addrow")
+
 	for k, v := range values {
 		valueIdx := idx.schema.add(k, v)
 
@@ -113,6 +115,8 @@ func (idx *IndexWriter) WriteToBoltDatabase(db *bbolt.DB) error {
 		return fmt.Errorf("failed to start new transaction: %w", err)
 	}
 
+	verifPoint("mem.begin")
+
 	idx.mtx.Lock()
 	defer idx.mtx.Unlock()
 
@@ -164,6 +168,8 @@ func (idx *IndexWriter) WriteToBoltDatabase(db *bbolt.DB) error {
 				return fmt.Errorf("failed to commit transaction: %w", err)
 			}
 
+			verifPoint("mem.commit")
+
 			tx, err = db.Begin(true)
 			if err != nil {
 				return fmt.Errorf("failed to start new transaction: %w", err)
@@ -176,6 +182,8 @@ func (idx *IndexWriter) WriteToBoltDatabase(db *bbolt.DB) error {
 	if err := tx.Commit(); err != nil {
 		return fmt.Errorf("failed to commit transaction: %w", err)
 	}
+
+	verifPoint("mem.final")
 
 	return nil
 }
